@@ -332,6 +332,24 @@ func report(prop string, cfg *PropConfig, w *World, results []*FnResult, missing
 		"not_decided_clauses":         cfg.NotDecided,
 		"explanation":                 "weakest-precondition VCs generated from go/ssa (naive form) of the current /repo tree; one SMT query per named obligation; portfolio z3 5.1.0 / z3 4.8.12 / cvc5 1.0",
 	}
+	if len(bounded) > 0 {
+		var bl []map[string]interface{}
+		for _, b := range bounded {
+			bl = append(bl, map[string]interface{}{
+				"name": b.Name, "label": "BOUNDED stand-in: exhaustive up to the stated bound through the real code; not a proof, not counted in obligations/discharged",
+				"bound": b.Bound, "evaluations": b.Evaluations, "summary": b.Summary, "violations_not_listed": len(b.Violations),
+				"violations_matching_a_listed_known_finding": b.KnownHits, "seconds": round3(b.Seconds), "command": b.Command, "error": b.Error,
+			})
+		}
+		cov["bounded_standins"] = bl
+	}
+	var openKF []string
+	for i := range kfs {
+		if kfs[i].Property == prop && kfs[i].Status != "fixed" {
+			openKF = append(openKF, kfs[i].What+" :: "+kfs[i].Input)
+		}
+	}
+	cov["known_findings_open"] = openKF
 	if binding == 0 {
 		cov["obligations"] = 0
 	}
